@@ -120,3 +120,25 @@ Example C13_placement_example :
   rt_msgs [KStr "a"; KStr "x"] t = [{| g_code := 66; g_field := Some (KStr "x") |}] /\
   rt_msgs [KStr "x"] t = [].
 Proof. vm_compute. repeat split; reflexivity. Qed.
+
+(* the SHAPE of the whole tree.  The errors property is the fold of single insertions over the flattened list of
+   (document path, message) pairs ([all_insertions]: per error, by the statement's rule, after the path rewriting);
+   and nothing else is in it: the dict below ANY path p -- the top level for p = [] -- has exactly the keys k for
+   which some insertion goes to p ++ k :: q.  For an *of error that is one sub-tree per failing definition. *)
+Theorem C13_errors_property_is_fold_of_insertions : forall errs,
+  fst (render current errs) = fold_left ins1 (all_insertions current errs) rt_empty.
+Proof. exact (render_is_fold current). Qed.
+Print Assumptions C13_errors_property_is_fold_of_insertions.
+
+Theorem C13_nothing_else_in_the_tree : forall errs p k,
+  In k (rt_keys (rt_sub p (fst (render current errs)))) <-> exists q m, In (p ++ k :: q, m) (all_insertions current errs).
+Proof. exact (render_sub_keys current). Qed.
+Print Assumptions C13_nothing_else_in_the_tree.
+
+Example C13_shape_example :
+  let leaf1 := Err [KStr "a"] (SP [KStr "a"; KStr "anyof"; KInt 0; KStr "type"]) 36 (Some "type"%string) VNone VNone [] [] in
+  let leaf2 := Err [KStr "a"] (SP [KStr "a"; KStr "anyof"; KInt 1; KStr "min"]) 66 (Some "min"%string) VNone VNone [] [] in
+  let lg := Err [KStr "a"] (SP [KStr "a"; KStr "anyof"]) 147 (Some "anyof"%string) VNone VNone [VInt 0; VInt 2] [leaf1; leaf2] in
+  rt_keys (rt_sub [KStr "a"] (fst (render current [lg]))) = [KStr "anyof definition 0"; KStr "anyof definition 1"] /\
+  map fst (all_insertions current [lg]) = [[KStr "a"]; [KStr "a"; KStr "anyof definition 0"]; [KStr "a"; KStr "anyof definition 1"]].
+Proof. vm_compute. split; reflexivity. Qed.
